@@ -25,6 +25,7 @@ Three strengths of "same meaning" are used (Lemmas/Rewrites.lean): equality of t
 everything that follows fails) and `HeadEq` (same first success).
 -/
 import RegexVerif.Lemmas.Rewrites
+import RegexVerif.Lemmas.AutoAtomic
 
 namespace RegexVerif.Props.C05
 open RegexVerif RegexVerif.Spec
@@ -202,6 +203,8 @@ theorem atomic_inner_end (e : Env) (a x : Pat) (st : St) :
 /-- the rewrite relation of `eliminateEndingBacktracking` in evaluation direction `rtl` -/
 inductive EndAtomic (e : Env) : Bool → Pat → Pat → Prop
   | refl (rtl : Bool) (p : Pat) : EndAtomic e rtl p p
+  /-- a replacement with the same ordered successes (a lazy repeater `x{n}?` written greedy, `x{0,0}` as Empty) -/
+  | ofEq {rtl : Bool} {p q : Pat} : (∀ st, m e p rtl st = m e q rtl st) → EndAtomic e rtl p q
   | trans {rtl : Bool} {p q r : Pat} : EndAtomic e rtl p q → EndAtomic e rtl q r → EndAtomic e rtl p r
   /-- `makeLoopAtomic` on a greedy loop; wrapping an alternation, conditional or loop in Atomic -/
   | wrap (rtl : Bool) (p : Pat) : EndAtomic e rtl p (.atomic p)
@@ -238,6 +241,7 @@ inductive EndAtomic (e : Env) : Bool → Pat → Pat → Prop
 theorem end_atomic_head (e : Env) {rtl : Bool} {p q : Pat} (h : EndAtomic e rtl p q) : HeadEq e rtl p q := by
   induction h with
   | refl rtl p => exact HeadEq.refl e rtl p
+  | ofEq h => exact HeadEq.of_eq h
   | trans _ _ ih1 ih2 => exact ih1.trans ih2
   | wrap rtl p => exact headEq_atomic e rtl p
   | lazyMin rtl lo hi a h => exact headEq_lazy_min e rtl lo hi a h
@@ -706,5 +710,321 @@ theorem bumpalong_lazy_in_atomic_counterexample :
     attempt (env [97, 97, 98, 99]) p false 0 = none
     ∧ runLen (env [97, 97, 98, 99]) (.one 97 false) 0 = 2
     ∧ attempt (env [97, 97, 98, 99]) p false 1 = some ⟨4, [(0, 1, 3)]⟩ := by decide
+
+/-! ## 8. the certifier: tree.go's syntactic tests imply the semantic side conditions
+
+`Model/AutoAtomic.lean` defines the syntactic side: `ks` (does a continuation fail / stay at the
+positions a loop would give back — the case analysis of `canBeMadeAtomic`), `canAtomic` (the
+decision), and `cert`/`certTop` (a walk over the un-rewritten and the rewritten tree of a pattern
+that recognises every place where a loop became atomic, a lazy loop was cut to its minimum or a
+construct was wrapped in Atomic, and checks that the continuation justifies it).  The theorems
+below tie them to the laws of sections 2 and 3.  The two oracle bits have the meaning
+`Oracle.Sound`: `disj p q` — no rune satisfies both tests; `uni p` — the runes `p` accepts are all
+word characters or all non-word characters.  Leg Cz evaluates `certTop` on the engine's own pair of
+trees with the bits computed from the engine's sets and Go's `unicode` tables. -/
+
+open RegexVerif.AutoAtomic
+
+/-- the oracle that knows nothing: only Lean's own rune comparisons are used -/
+def o0 : Oracle := ⟨fun _ _ => false, fun _ => false⟩
+
+theorem o0_sound (e : Env) : o0.Sound e :=
+  ⟨fun _ _ h => (by cases h), fun _ h => (by cases h)⟩
+
+/-- **the case analysis of `canBeMadeAtomic` is sound, "return true" cases**: when `ks` says that
+    the continuation `k` *kills* the site `s` (a disjoint One/Notone/Set/Multi next, a loop with
+    `M > 0` over one, `\z`, `$`/`\Z` with `'\n'` outside the loop's set, `\b` after a loop with
+    `M > 0` over runes of one kind, looked at through Concatenate/Capture/Atomic/positive lookahead
+    and through every branch of an alternation or conditional), `k` has no success from any
+    position the loop would give back. -/
+theorem ks_kills_sound {e : Env} {o : Oracle} (hs : o.Sound e) (s : Site) (k : Pat) (h : (ks o s k).1 = true) :
+    Kills e (siteDead e s) k := (ks_sound hs s k).1 h
+
+/-- **… "goto end" cases**: when `ks` says `k` *stays* (a loop with `M == 0` over a disjoint
+    character, a boundary, Empty, a lookaround), `k` can only succeed without moving from such a
+    position — so what follows `k` is again at a position the loop would give back. -/
+theorem ks_stays_sound {e : Env} {o : Oracle} (hs : o.Sound e) (s : Site) (k : Pat) (h : (ks o s k).2 = true) :
+    Stays e (siteDead e s) k := (ks_sound hs s k).2 h
+
+/-- `[ab]*` in front of `(?:c|d+)x`: every branch fails in front of `a`/`b` (rune comparisons only) -/
+example : (ks o0 (.acc (.one 97 false)) (.seq (.alt (lit 99) (plus 100)) (lit 120))).1 = true := by decide
+/-- in front of `b*` it only stays -/
+example : ks o0 (.acc (.one 97 false)) (star 98) = (false, true) := by decide
+/-- in front of `a` neither -/
+example : ks o0 (.acc (.one 97 false)) (lit 97) = (false, false) := by decide
+
+/-- a continuation that `totalS` accepts always has a success (`b*`, Empty, `(?:x|)`, …) -/
+theorem totalS_total (e : Env) (k : Pat) (h : totalS k = true) (st : St) : m e k false st ≠ [] :=
+  totalS_sound e k h st
+
+example : totalS (.seq (star 98) (.alt (lit 120) .empty)) = true := by decide
+
+/-- **`canAtomic_sound`** — the decision implies the side condition of `loop_atomic_disjoint`:
+    what follows the loop (`subsequent`, then `rest`) has no success from a position where the loop
+    over `loopPred` could have gone on (for `lo ≥ 1`: from a position between two runes the loop
+    accepts). -/
+theorem canAtomic_sound {e : Env} {o : Oracle} (hs : o.Sound e) (loopPred : Pred) (lo : Nat) (subsequent : Pat)
+    (rest : List Pat) (h : canAtomic o loopPred lo subsequent rest = true) :
+    Kills e (siteDead e (loopSite loopPred lo)) (seqOf (subsequent :: rest)) :=
+  contKills_sound hs _ _ h
+
+/-- for a loop with minimum 0 this is literally `StartsOutside` -/
+theorem canAtomic_startsOutside {e : Env} {o : Oracle} (hs : o.Sound e) (loopPred : Pred) (subsequent : Pat)
+    (rest : List Pat) (h : canAtomic o loopPred 0 subsequent rest = true) :
+    StartsOutside e loopPred (seqOf (subsequent :: rest)) := by
+  intro st hd
+  exact canAtomic_sound hs loopPred 0 subsequent rest h st (by simpa [loopSite, siteDead] using hd)
+
+/-- **a greedy loop the decision accepts may be made atomic**: the concatenation with everything
+    that follows has the same ordered successes (`processNode`, `case NtOneloop, NtNotoneloop,
+    NtSetloop`) -/
+theorem canAtomic_greedy {e : Env} {o : Oracle} (hs : o.Sound e) (p : Pred) (lo : Nat) (hi : Option Nat)
+    (subsequent : Pat) (rest : List Pat) (h : canAtomic o p lo subsequent rest = true) (st : St) :
+    m e (.seq (.quant false lo hi (.chr p)) (seqOf (subsequent :: rest))) false st
+      = m e (.seq (.atomic (.quant false lo hi (.chr p))) (seqOf (subsequent :: rest))) false st := by
+  have hk := canAtomic_sound hs p lo subsequent rest h
+  unfold loopSite at hk
+  by_cases hlo : 1 ≤ lo
+  · rw [if_pos hlo] at hk
+    exact (charloop_eqMod_atomic_between e p lo hi hlo).seq_kill _ hk st
+  · rw [if_neg hlo] at hk
+    exact (charloop_eqMod_atomic e p lo hi).seq_kill _ hk st
+
+/-- **a lazy loop the decision accepts may be made the atomic greedy loop** (`case NtOnelazy, …`:
+    "lazy to greedy") -/
+theorem canAtomic_lazy {e : Env} {o : Oracle} (hs : o.Sound e) (p : Pred) (lo : Nat) (hi : Option Nat)
+    (subsequent : Pat) (rest : List Pat) (h : canAtomicLazy o p subsequent rest = true) (st : St) :
+    m e (.seq (.quant true lo hi (.chr p)) (seqOf (subsequent :: rest))) false st
+      = m e (.seq (.atomic (.quant false lo hi (.chr p))) (seqOf (subsequent :: rest))) false st :=
+  (lazy_charloop_eqMod_atomic e p lo hi).seq_kill _ (contKills_sound hs (.acc p) _ h) st
+
+/-- `a*b*c`: `a*` against `b*` then `c` (the `iterateNullableSubsequent` walk) -/
+example : canAtomic o0 (.one 97 false) 0 (star 98) [lit 99] = true := by decide
+/-- `a*b*a`: no -/
+example : canAtomic o0 (.one 97 false) 0 (star 98) [lit 97] = false := by decide
+/-- `a+\b-`: a loop with minimum 1 in front of `\b`, whatever follows -/
+example : canAtomic o0 (.one 97 false) 1 (.anchor .boundary) [lit 45] = true := by decide
+/-- `a*\b`: not with minimum 0 (`n.M > 0`) -/
+example : canAtomic o0 (.one 97 false) 0 (.anchor .boundary) [] = false := by decide
+/-- the instance on a text: `a*b*c` on "aabc" -/
+example : m (env [97, 97, 98, 99]) (.seq (star 97) (seqOf [star 98, lit 99])) false st0
+    = m (env [97, 97, 98, 99]) (.seq (.atomic (star 97)) (seqOf [star 98, lit 99])) false st0 :=
+  canAtomic_greedy (o0_sound _) _ 0 none _ _ (by decide) st0
+
+/-- **at the end of the pattern** (`canBeMadeAtomic`: `parent == nil … return true`): when every item
+    up to the end either fails at the given-back positions or stays there and always succeeds, the
+    loop may be made atomic as far as the first success — all that `find` observes — is concerned
+    (`a*b*` ⇒ `(?>a*)b*`; the full lists differ). -/
+theorem canAtomicEnd_sound {e : Env} {o : Oracle} (hs : o.Sound e) (p : Pred) (lo : Nat) (hi : Option Nat)
+    (rest : List Pat) (h : canAtomicEnd o p lo rest = true) :
+    HeadEq e false (.seq (.quant false lo hi (.chr p)) (seqOf rest)) (.seq (.atomic (.quant false lo hi (.chr p))) (seqOf rest)) := by
+  have hE : EqMod e (siteDead e (loopSite p lo)) false (.quant false lo hi (.chr p)) (.atomic (.quant false lo hi (.chr p))) := by
+    unfold loopSite
+    by_cases hlo : 1 ≤ lo
+    · rw [if_pos hlo]; exact charloop_eqMod_atomic_between e p lo hi hlo
+    · rw [if_neg hlo]; exact charloop_eqMod_atomic e p lo hi
+  rcases contEnd_sound hs _ rest h with hk | ⟨_, ht⟩
+  · exact headEq_seq_step _ hE (Or.inr hk)
+  · exact headEq_seq_step _ hE (Or.inl ⟨headEq_atomic e false _, ht⟩)
+
+example : canAtomicEnd o0 (.one 97 false) 0 [star 98] = true := by decide
+/-- `a*b*` on "aab": the lists differ, the heads agree -/
+example : m (env [97, 97, 98]) (.seq (star 97) (star 98)) false st0 = [⟨3, []⟩, ⟨2, []⟩, ⟨1, []⟩, ⟨0, []⟩]
+    ∧ m (env [97, 97, 98]) (.seq (.atomic (star 97)) (star 98)) false st0 = [⟨3, []⟩, ⟨2, []⟩] := by decide
+
+/-- **KF2, the negative result.**  The condition `subsequent.T == NtNonboundary && n.M > 0 &&
+    !IsWordChar(n.Ch)` of `canBeMadeAtomic` (and its Set variants for `\W`, `\D`) is NOT a sound
+    reason: there is an environment, a loop over a non-word rune with minimum 1 and the
+    continuation `\B` for which the atomic loop changes the result. -/
+theorem nonboundary_rule_unsound :
+    ¬ ∀ (e : Env) (p : Pred) (lo : Nat) (hi : Option Nat), 1 ≤ lo → (∀ r, p.test e r = true → e.isWord r = false) →
+      ∀ st, m e (.seq (.quant false lo hi (.chr p)) (.anchor .nonboundary)) false st
+        = m e (.seq (.atomic (.quant false lo hi (.chr p))) (.anchor .nonboundary)) false st := by
+  intro h
+  have := h (env [45, 45, 98]) (.one 45 false) 1 none (by decide)
+    (fun r hr => by
+      simp only [Pred.test, Bool.false_eq_true, if_false, beq_iff_eq] at hr
+      subst hr; decide) st0
+  rw [show Pat.seq (.quant false 1 none (.chr (.one 45 false))) (.anchor .nonboundary) = .seq (plus 45) (.anchor .nonboundary) from rfl,
+    show Pat.seq (.atomic (.quant false 1 none (.chr (.one 45 false)))) (.anchor .nonboundary) = .seq (.atomic (plus 45)) (.anchor .nonboundary) from rfl,
+    kf2_nonword_loop_before_nonboundary.1, kf2_nonword_loop_before_nonboundary.2] at this
+  cases this
+
+/-- … and therefore `ks` has no such case: `\B` never discharges a site, whatever the oracle says
+    (it only stays) — -/
+theorem nonboundary_never_kills (o : Oracle) (s : Site) : ks o s (.anchor .nonboundary) = (false, true) := by
+  cases s <;> rfl
+
+/-- — so the engine's decision `-+\B` ⇒ `(?>-+)\B` (and every decision of that shape) is rejected
+    by the certifier under every oracle; leg Cz files these under the known finding KF2. -/
+theorem kf2_not_certified (o : Oracle) :
+    certTop o (.seq (plus 45) (.anchor .nonboundary)) (.seq (.atomic (plus 45)) (.anchor .nonboundary)) = false := by
+  rfl
+
+/-- but `-+\Bx` ⇒ `(?>-+)\Bx` is fine (and certified): after `\B` comes something that fails -/
+example : certTop o0 (.seq (plus 45) (.seq (.anchor .nonboundary) (lit 120)))
+    (.seq (.atomic (plus 45)) (.seq (.anchor .nonboundary) (lit 120))) = true := by decide
+
+/-- **the tree walk is sound.**  If `cert` reports no error for the un-rewritten tree `p` and the
+    rewritten tree `p'` (both evaluated in direction `d`), then the two have the same ordered
+    successes except for successes ending at a dead position of a site that is still pending, and —
+    when the result says so — the same first success.  (This is the invariant; the two theorems
+    after it are what it gives for whole patterns.) -/
+theorem cert_holds {e : Env} {o : Oracle} (hs : o.Sound e) (p : Pat) (d : Bool) (p' : Pat)
+    (h : (cert o d p p').errs = []) :
+    EqMod e (dead e (cert o d p p').sites) d p p' ∧ ((cert o d p p').head = true → HeadEq e d p p') :=
+  cert_sound hs p d p' h
+
+/-- no site pending: the two trees are interchangeable in every context -/
+theorem cert_equal {e : Env} {o : Oracle} (hs : o.Sound e) (p : Pat) (d : Bool) (p' : Pat)
+    (h : (cert o d p p').errs = []) (hsites : (cert o d p p').sites = []) (st : St) :
+    m e p d st = m e p' d st :=
+  (cert_sound hs p d p' h).eq hsites st
+
+/-- `(x a*|c*)b` ⇒ `(x(?>a*)|(?>c*))b`: two sites, both discharged by `b` -/
+example : (cert o0 false (.seq (.cap 1 (.alt (.seq (lit 120) (star 97)) (star 99))) (lit 98))
+    (.seq (.cap 1 (.alt (.seq (lit 120) (.atomic (star 97))) (.atomic (star 99)))) (lit 98))).sites = [] := by decide
+
+/-- **`auto_atomic_certified`** — a pattern whose rewritten tree the certifier accepts has the same
+    `find` result from every start position: same match, same captures.  Everything
+    `findAndMakeLoopsAtomic` and `eliminateEndingBacktracking` did to the tree — loops made atomic
+    in front of what `canBeMadeAtomic` accepted, lazy loops made greedy atomic, ending constructs
+    made atomic or cut to their minimum, inside captures, alternations, conditionals, atomic groups,
+    lookarounds and loop bodies — is covered by the one hypothesis `certTop o p p' = true`, which
+    leg Cz evaluates on the engine's own trees. -/
+theorem auto_atomic_certified {e : Env} {o : Oracle} (hs : o.Sound e) {p p' : Pat} (h : certTop o p p' = true)
+    (start : Nat) : find e p false start = find e p' false start :=
+  find_congr_head (certTop_headEq hs h) start
+
+/-- the same for either direction of the pattern (`RegexOptions.RightToLeft`): right-to-left only
+    the tail-position rewrites are certified — the first factor of a concatenation is the one
+    evaluated last (`atomic_at_end_rtl`) -/
+theorem auto_atomic_certified_dir {e : Env} {o : Oracle} (hs : o.Sound e) {rtl : Bool} {p p' : Pat}
+    (h : certTopDir o rtl p p' = true) (start : Nat) : find e p rtl start = find e p' rtl start :=
+  find_congr_head (certTopDir_headEq hs h) start
+
+/-- right-to-left `a*b` ⇒ `(?>a*)b` is certified (the loop runs last), `ab*` ⇒ `a(?>b*)` is not -/
+example : certTopDir o0 true (.seq (star 97) (lit 98)) (.seq (.atomic (star 97)) (lit 98)) = true
+    ∧ certTopDir o0 true (.seq (lit 97) (star 98)) (.seq (lit 97) (.atomic (star 98))) = false := by decide
+
+/-- `a*?b(?:c+|d*)` ⇒ `(?>a*)b(?>(?>c+)|(?>d*))` (lazy to greedy, ending loops, wrapped alternation) -/
+example : certTop o0
+    (.seq (lazyStar 97) (.seq (lit 98) (.alt (plus 99) (star 100))))
+    (.seq (.atomic (star 97)) (.seq (lit 98) (.atomic (.alt (.atomic (plus 99)) (.atomic (star 100)))))) = true := by decide
+
+/-- the loop-body rule: `(?:ca a*){2}x` ⇒ `(?:ca(?>a*)){2}x` -/
+example : certTop o0
+    (.seq (.quant false 2 (some 2) (.seq (lit 99) (.seq (lit 97) (star 97)))) (lit 120))
+    (.seq (.quant false 2 (some 2) (.seq (lit 99) (.seq (lit 97) (.atomic (star 97))))) (lit 120)) = true := by decide
+
+/-- what D8 (inverted `MayOverlap`) did — `[ab]*` made atomic in front of `[bc]*c` — is rejected
+    unless the oracle claims the two sets are disjoint, which a sound oracle cannot -/
+example : certTop o0
+    (.seq (.quant false 0 none (.chr (.set (.base false [(97, 98)] []) false))) (.seq (.quant false 0 none (.chr (.set (.base false [(98, 99)] []) false))) (lit 99)))
+    (.seq (.atomic (.quant false 0 none (.chr (.set (.base false [(97, 98)] []) false)))) (.seq (.quant false 0 none (.chr (.set (.base false [(98, 99)] []) false))) (lit 99))) = false := by decide
+
+/-- an instance of the theorem on a text -/
+example : find (env [120, 97, 97, 98]) (.seq (star 97) (lit 98)) false 0
+    = find (env [120, 97, 97, 98]) (.seq (.atomic (star 97)) (lit 98)) false 0 :=
+  auto_atomic_certified (o0_sound _) (by decide) 0
+
+/-! ## 9. `eliminateEndingBacktracking` as a function -/
+
+theorem endAtomic_wrapIf (e : Env) (c : Bool) (orig : Pat) {p q : Pat} (h : EndAtomic e false p q) :
+    EndAtomic e false p (wrapIf c orig q) := by
+  unfold wrapIf
+  split
+  · exact .trans h (.wrap _ _)
+  · exact h
+
+/-- **`endAtomic_sound`** — what `eliminateEndingBacktracking` does to a left-to-right tree
+    (`Model/AutoAtomic.lean`: `endAtomic`, a function mirroring the Go switch) is an instance of the
+    rewrite relation `EndAtomic`, whatever the parent is: every trailing node it makes atomic, cuts to
+    its minimum or wraps is in tail position. -/
+theorem endAtomic_sound (e : Env) : ∀ (p : Pat) (pa : Bool), EndAtomic e false p (endAtomic pa p) := by
+  intro p
+  induction p with
+  | quant lzy lo hi x ih =>
+    intro pa
+    cases x with
+    | chr q =>
+      simp only [endAtomic]
+      cases lzy with
+      | false => exact .wrap _ _
+      | true =>
+        simp only [if_true]
+        by_cases h1 : hiAtLeast hi lo = true
+        · rw [if_pos h1]
+          have hmin : EndAtomic e false (.quant true lo hi (.chr q)) (.quant true lo (some lo) (.chr q)) :=
+            .lazyMin _ lo hi _ (canGo_of_hiAtLeast h1)
+          by_cases h0 : lo = 0
+          · subst h0
+            rw [if_pos rfl]
+            exact .trans hmin (.ofEq (quant_zero_zero e true _ false))
+          · rw [if_neg h0]
+            exact .trans hmin (.trans (.ofEq (repeater_lazy_eq_greedy e q lo)) (.wrap _ _))
+        · rw [if_neg h1]; exact .refl _ _
+    | _ =>
+      simp only [endAtomic]
+      by_cases hl : lzy = true ∧ hiAtLeast hi lo = true
+      · obtain ⟨rfl, h1⟩ := hl
+        simp only [h1, and_self, if_true]
+        split
+        · rename_i h2
+          obtain rfl : lo = 1 := by simpa using h2
+          exact .trans (.lazyMin _ 1 hi _ (canGo_of_hiAtLeast h1)) (.optional true 1 (ih false))
+        · exact .lazyMin _ lo hi _ (canGo_of_hiAtLeast h1)
+      · simp only [hl, if_false]
+        split
+        · rename_i h2
+          rw [h2]
+          exact .optional lzy lo (ih false)
+        · exact .refl _ _
+  | atomic x ih =>
+    intro pa
+    simp only [endAtomic]
+    split
+    · exact .refl _ _
+    · exact .atomic (ih true)
+  | look bh ng x ih =>
+    intro pa
+    cases bh with
+    | false => simp only [endAtomic]; exact .look false ng (ih false)
+    | true => simp only [endAtomic]; exact .refl _ _
+  | seq a b _ ihb =>
+    intro pa
+    simp only [endAtomic]
+    split
+    · exact .seqLtr a (ihb pa)
+    · exact .seqLtr a (endAtomic_wrapIf e _ _ (ihb false))
+  | cap g a ih =>
+    intro pa
+    simp only [endAtomic]
+    exact .cap g (endAtomic_wrapIf e _ _ (ih false))
+  | alt a b iha ihb => intro pa; simp only [endAtomic]; exact .alt (iha false) (ihb false)
+  | refCond g y n ihy ihn => intro pa; simp only [endAtomic]; exact .refCond g (ihy false) (ihn false)
+  | exprCond c y n _ ihy ihn =>
+    intro pa; simp only [endAtomic]; exact .exprCond (.refl _ c) (ihy false) (ihn false)
+  | empty => intro pa; exact .refl _ _
+  | nothing => intro pa; exact .refl _ _
+  | chr q => intro pa; exact .refl _ _
+  | anchor a => intro pa; exact .refl _ _
+  | ref g ci => intro pa; exact .refl _ _
+
+/-- … hence the whole pattern keeps its `find` result (`finalOptimize`:
+    `rootNode.eliminateEndingBacktracking()` — at the root the implicit capture has no parent, so a
+    top-level alternation or loop is wrapped too) -/
+theorem endAtomicTop_find (e : Env) (p : Pat) (start : Nat) :
+    find e p false start = find e (endAtomicTop p) false start :=
+  end_atomic_find e (endAtomic_wrapIf e true p (endAtomic_sound e p false)) start
+
+/-- `x(?:ab*|c+?)` ⇒ `x(?>a(?>b*)|c)`; `ab*?` ⇒ `a`+Empty; `a|b+` at the root is wrapped -/
+example : endAtomicTop (.seq (lit 120) (.alt (.seq (lit 97) (star 98)) (.quant true 1 none (lit 99))))
+    = .seq (lit 120) (.atomic (.alt (.seq (lit 97) (.atomic (star 98))) (.atomic (.quant false 1 (some 1) (lit 99))))) := by decide
+example : endAtomicTop (.seq (lit 97) (lazyStar 98)) = .seq (lit 97) .empty := by decide
+example : endAtomicTop (.alt (lit 97) (plus 98)) = .atomic (.alt (lit 97) (.atomic (plus 98))) := by decide
+/-- inside an Atomic group the last alternation is not wrapped again -/
+example : endAtomicTop (.atomic (.seq (lit 120) (.alt (lit 97) (star 98))))
+    = .atomic (.seq (lit 120) (.alt (lit 97) (.atomic (star 98)))) := by decide
 
 end RegexVerif.Props.C05
